@@ -112,6 +112,24 @@ Definition run_write_buf (len hint : nat) (items : list Z) : list Z :=
   ++ flat_map (fun x => match x with Some v => c_int v | None => c_uninit end)
               (apply_writes ws (repeat None len)).
 
+(* ---- UninitVec::set (uninit.rs:32-40): `if idx < len { uset(idx, v); Ok } else { Err(oob) }` — status, the uset calls,
+   the buffer afterwards.  (mutation campaign M3: interpreter only; Model/Collect.v has no entry for this method.) ---- *)
+Definition uninit_set_writes (len idx : nat) (v : Z) : wstatus * list (nat * Z) :=
+  if idx <? len then (WOk, [(idx, v)]) else (WErr, []).
+Definition run_uninit_set (len idx : nat) (v : Z) : list Z :=
+  let '(st, ws) := uninit_set_writes len idx v in
+  (match st with WOk => c_int 0 | WErr => c_err | WPanic k => c_panic k end)
+  ++ flat_map (fun w => c_nat (fst w) ++ c_int (snd w)) ws ++ c_sep
+  ++ flat_map (fun x => match x with Some v => c_int v | None => c_uninit end)
+              (apply_writes ws (repeat None len)).
+(* the library's own buffer: no trace; one guard slot behind the end that must stay unwritten *)
+Definition run_uninit_set_buf (len idx : nat) (v : Z) : list Z :=
+  let '(st, ws) := uninit_set_writes len idx v in
+  (match st with WOk => c_int 0 | WErr => c_err | WPanic k => c_panic k end) ++ c_sep
+  ++ flat_map (fun x => match x with Some v => c_int v | None => c_uninit end)
+              (apply_writes ws (repeat None len))
+  ++ c_sep ++ c_uninit.
+
 (* ---- Vec1Mut / sort --------------------------------------------------------------------------- *)
 Definition run_get_mut (xs : list Z) (i : nat) : list Z := c_opt c_int (get_mut xs i).
 (* the harness callback: log (old, other), then *v = 10 * old + other *)
